@@ -3,6 +3,7 @@ import Hive.Proofs.DerivedCounter
 import Hive.Proofs.DerivedSorted
 import Hive.Proofs.DerivedWG
 import Hive.Proofs.DerivedLocks
+import Hive.Proofs.DerivedVar
 import Hive.Spec.Derived
 import Hive.Gen.C14_Skel
 /-!
@@ -166,6 +167,50 @@ theorem C14_sorted_set_absent_weight (s : SS) (e : Nat) (w : Int) (h : s.has e =
 
 example : ((SS.init true).run [.apply [1, 2, 3] [], .weight 2 5, .weight 3 5, .apply [] [1], .weight 1 9]).ents
     = [{ el := 3, w := 5, idx := 0 }, { el := 2, w := 5, idx := 1 }] := by decide
+
+/-! ## DerivedVariable / InheritFrom (protocol model `dvSys`, any number of writers, any schedule) -/
+
+/-- **At quiescence a DerivedVariable equals `compute(current inputs)`**, with the construction
+(`NewDerivedVariableN`: subscribing to the `n ≥ 1` inputs one after the other, each with an initial
+delivery that does *not* hold the input's update-order mutex) running concurrently with any number of
+writers, each with an arbitrary script of `Set` calls on arbitrary inputs — several writers per input
+included — under every interleaving of their lock / store / read / commit / unlock steps.  `compute`
+is any function of the `n` inputs.  (Argument: every input's writer holds its update-order mutex from
+the store to the end of its callbacks, so the last committed recompute has seen current values.) -/
+theorem C14_derived_var (n : Nat) (hn : 0 < n) (f : (Nat → Int) → Int)
+    (hf : ∀ a b : Nat → Int, (∀ j, j < n → a j = b j) → f a = f b)
+    (val0 : Nat → Int) (d0 : Int) (writers : List (List (Nat × Int))) (c : Cfg DVS DVT)
+    (hr : Reach (dvSys n f) (DVS.fresh val0 d0, DVT.cIdle (List.range n) :: writers.map DVT.idle) c)
+    (hq : ∀ t ∈ c.2, t.finished = true) :
+    c.1.d = f c.1.val :=
+  dv_quiescent n hn f hf val0 d0 writers c hr hq
+
+/-- The same for a derived variable that already exists (all callbacks registered, value up to date):
+only writers, any number, any scripts, any schedule. -/
+theorem C14_derived_var_steady (n : Nat) (f : (Nat → Int) → Int)
+    (hf : ∀ a b : Nat → Int, (∀ j, j < n → a j = b j) → f a = f b)
+    (val0 : Nat → Int) (writers : List (List (Nat × Int))) (c : Cfg DVS DVT)
+    (hr : Reach (dvSys n f)
+      ({ val := val0, upd := fun _ => false, ex := fun _ => false, reg := fun i => decide (i < n), dUpd := false,
+         d := f val0, seen := val0 }, writers.map DVT.idle) c)
+    (hq : ∀ t ∈ c.2, t.finished = true) :
+    c.1.d = f c.1.val :=
+  dv_quiescent_steady n f hf val0 writers c hr hq
+
+/-- **`InheritFrom` copies its source**: the inheriting variable is a derived variable of one input
+with the identity as `compute`; subscribing concurrently with any writers of the source, at quiescence
+it holds the source's value. -/
+theorem C14_inherit (val0 : Nat → Int) (d0 : Int) (writers : List (List (Nat × Int))) (c : Cfg DVS DVT)
+    (hr : Reach (dvSys 1 (fun a => a 0)) (DVS.fresh val0 d0, DVT.cIdle (List.range 1) :: writers.map DVT.idle) c)
+    (hq : ∀ t ∈ c.2, t.finished = true) :
+    c.1.d = c.1.val 0 :=
+  dv_quiescent 1 (by omega) (fun a => a 0) (fun a b h => h 0 (by omega)) val0 d0 writers c hr hq
+
+/-- Non-vacuity: a schedule of the constructor (2 inputs) and two writers that ends with every thread
+finished is reachable, so the hypotheses of `C14_derived_var` are satisfiable by a non-trivial run. -/
+example : ∃ c, Reach (dvSys 2 (fun a => a 0 + a 1))
+      (DVS.fresh (fun _ => 0) 7, DVT.cIdle (List.range 2) :: [[(0, 5)], [(1, 3)]].map DVT.idle) c :=
+  ⟨_, runSched_reach _ _ [(1, 0), (0, 0), (1, 0), (2, 0), (0, 0), (0, 0), (0, 0)]⟩
 
 /-! ## WaitGroup under concurrency (protocol model `wgSys`, any number of `Add` / `Done` goroutines) -/
 
